@@ -651,6 +651,9 @@ def emit_meta(meta: dict[str, Any], format_options: FormatOptions | None = None)
                     continue
                 nested_value_str = emit_value(nested_value, indent=2)
                 content_lines.append(f"    {nested_key}::{nested_value_str}")
+        elif isinstance(value, LiteralZoneValue):
+            # Issue #235: a literal zone starts on the line after its key (inline `KEY::```` is not readable)
+            content_lines.append(emit_assignment(Assignment(key=key, value=value), indent=1))
         else:
             value_str = emit_value(value, indent=1)
             content_lines.append(f"  {key}::{value_str}")
